@@ -21,9 +21,13 @@ COMMON_ASSUMPTIONS = [
     "the structural clauses named in `explanation` are decided; the behavioural property as a whole is not (see level_note in MANIFEST.json)",
 ]
 
+ALL_CFGS = ["default", "release", "fromstr", "demo"]
 # property id -> (module, configs for quick, configs for thorough)
 PROPS = {
-    "C04": ("c04", ["default"], ["default", "release", "fromstr", "demo"]),
+    "C04": ("c04", ["default"], ALL_CFGS),
+    "C16": ("orch", ["default"], ALL_CFGS),
+    "C17": ("orch", ["default"], ALL_CFGS),
+    "C18": ("orch", ["default"], ALL_CFGS),
 }
 
 
@@ -35,6 +39,10 @@ def run(prop, tier, seed, only_rule=None):
     modname, quick_cfgs, thorough_cfgs = PROPS[prop]
     cfgs = thorough_cfgs if tier == "thorough" else quick_cfgs
     mod = importlib.import_module(modname)
+    if hasattr(mod, "PROPERTIES"):
+        checkfn, explanation, extra_assumptions = mod.PROPERTIES[prop]
+    else:
+        checkfn, explanation, extra_assumptions = mod.check, mod.EXPLANATION, getattr(mod, "ASSUMPTIONS", [])
     reports = []
     for cfg in cfgs:
         rep = engine.Report(prop, cfg)
@@ -54,15 +62,15 @@ def run(prop, tier, seed, only_rule=None):
             "tree_hash": info.get("hash"),
         })
         try:
-            mod.check(prog, rep, tier, cfg)
+            checkfn(prog, rep, tier, cfg)
         except Exception as e:  # fail closed
             import traceback
             rep.fail(prop + ".infra", "exception:%s" % type(e).__name__, "rule engine crashed (%s) — failing closed:\n%s" % (e, traceback.format_exc()[-2000:]))
         reports.append(rep)
     return engine.finish(
         prop, tier, reports, t0,
-        explanation=mod.EXPLANATION,
-        assumptions=COMMON_ASSUMPTIONS + getattr(mod, "ASSUMPTIONS", []),
+        explanation=explanation,
+        assumptions=COMMON_ASSUMPTIONS + list(extra_assumptions),
         trusted_base=TRUSTED,
         checker_cmd="./verif check %s --tier %s" % (prop, tier),
         seed=seed,
